@@ -43,7 +43,7 @@ ASSUMPTIONS = [
     'a failure is attributed to an open known finding only if (a) the request structurally carries that trigger, (b) the failing clauses are within the finding\'s '
     'signature and (c) a twin with only that trigger neutralised no longer shows those failures; remaining/new failures are explained recursively the same way or stay violations',
 ]
-REQUIRED = ['connection_option_not_in_lower_case', 'redirect_for_a_target_not_in_normal_form', 'request_following_such_a_redirect', 'framing_length', 'framing_chunked', 'framing_close', 'framing_none_head', 'framing_none_status', 'chunked_multi_chunk',
+REQUIRED = ['another_connection_mid_request_meanwhile', 'connection_option_not_in_lower_case', 'redirect_for_a_target_not_in_normal_form', 'request_following_such_a_redirect', 'framing_length', 'framing_chunked', 'framing_close', 'framing_none_head', 'framing_none_status', 'chunked_multi_chunk',
             'stream_events', 'body_gt_64k', 'nonascii_str_body', 'generator_empty_item', 'file_body_bytesio', 'file_body_real', 'file_body_short_reads',
             'keepalive_further_request', 'keepalive_http10', 'close_announced_and_closed', 'kept_open_unannounced',
             'reconnect_after_close', 'head_requests', 'post_requests', 'error_page_response', 'app_content_length',
@@ -377,6 +377,10 @@ class World:
         obs = []
         sock = None
         conn_no = -1
+        # case option 'neighbour': ANOTHER connection of the same server is in the middle of a request of its own while each request of the
+        # case is received, answered and (perhaps) streamed; it completes afterwards.  Nothing of it shows on the connection under test.
+        nsock = H['FakeSock'](('10.9.9.9', 999)) if self.case.get('neighbour') else None
+        NB = b'GET /zz-neighbour HTTP/1.1\r\nHost: n\r\nX-N: 1\r\n\r\n'
         for idx, r in enumerate(self.case['reqs']):
             fresh = sock is None
             if fresh:
@@ -384,6 +388,9 @@ class World:
                 sock = H['FakeSock'](('127.0.0.1', 40000 + conn_no))
             w.exceptions.clear()
             s0 = self.probe.streams
+            if nsock is not None:
+                w.fire(H['read'](nsock, NB[:len(NB) // 2]), 'web')
+                self._settle()
             w.fire(H['read'](sock, request_bytes(idx, r)), 'web')
             settled = self._settle()
             if settled and idx in self.pushed:
@@ -394,9 +401,21 @@ class World:
                     if not settled:
                         break
             taken = w.take()
+            if nsock is not None and settled:
+                self.neighbour_cycles = getattr(self, 'neighbour_cycles', 0) + 1
+                w.fire(H['read'](nsock, NB[len(NB) // 2:]), 'web')
+                self._settle()
+                late = w.take()
+                taken += [e for e in late if e[1] is not nsock]       # (anything the neighbour's completion puts on OUR connection counts)
+                if any(e[0] == 'close' and e[1] is nsock for e in late) or not any(e[0] == 'write' and e[1] is nsock for e in late):
+                    w.fire(H['disconnect'](nsock), 'web')
+                    self._settle()
+                    w.take()
+                    nsock.close()
+                    nsock = H['FakeSock'](('10.9.9.9', 999))
             events = [(e[0], e[2] if e[0] == 'write' else None) for e in taken if e[1] is sock]
             o = {'idx': idx, 'conn': conn_no, 'fresh': fresh, 'events': events, 'unsettled': not settled,
-                 'elsewhere': sum(1 for e in taken if e[1] is not sock),
+                 'elsewhere': sum(1 for e in taken if e[1] is not sock and e[1] is not nsock),
                  'exceptions': len(w.exceptions), 'stream_events': self.probe.streams - s0}
             obs.append(o)
             if not settled:
@@ -418,6 +437,8 @@ class World:
                 sock.close()
             except OSError:
                 pass
+        if nsock is not None:
+            nsock.close()
         return obs
 
     @staticmethod
@@ -611,6 +632,8 @@ def run_case(case):
     world = World(case)
     obs = world.run()
     marks = set()
+    if getattr(world, 'neighbour_cycles', 0):
+        marks.add('another_connection_mid_request_meanwhile')
     failures, oks = [], {}
     nontrivial = False
     reqs = case['reqs']
@@ -1089,6 +1112,8 @@ def corpus():
     add('F-raise-request-level', R(status=500, how='raise-request'))
     add('F-head-204-body-close', R(method='HEAD', conn='close', status=204, body=B('str', 'x')))
     add('F-head-then-204-body', R(method='HEAD', body=S), R(status=204, body=B('str', 'x')), R(body=S))
+    # every hand-derived case once more with another connection in the middle of a request of its own meanwhile
+    cs += [dict(copy.deepcopy(c), tag=c['tag'] + '+n', neighbour=True) for c in cs]
     return cs
 
 
@@ -1142,7 +1167,10 @@ _VARIANTS = body_variants()
 def gen_sequence(rng):
     n = rng.choice([1, 2, 2, 3, 3, 3, 4, 4])
     reqs = [gen_request(rng, 0.85 if k < n - 1 else 0.4) for k in range(n)]
-    return {'tag': 's%06x' % rng.randrange(1 << 24), 'reqs': reqs}
+    case = {'tag': 's%06x' % rng.randrange(1 << 24), 'reqs': reqs}
+    if rng.random() < 0.25:
+        case['neighbour'] = True     # another connection of the same server is in the middle of a request of its own meanwhile
+    return case
 
 
 def alphabet():
